@@ -22,7 +22,8 @@ EXPLANATION = (
     ' (R9) nothing may raise after the commit point (shared with C04.R2): a raise there runs the deleting rollback over the files of a snapshot that IS committed.'
     ' (R10) every producer of a snapshot_log value keeps commit order on the sequence spine (no sorted / reversed / set / insert).'
     ' (R14) recovery orders versions as integers (C10.R11). R5: the as-of sort key is the timestamp alone.'
-    " (R15) the snapshot-removal sites keep what the API says is retained, incl. a snapshot exactly at the expiry cutoff (C15.R1); (R16) a committed snapshot's files are never rolled back after an interrupt (C04.R4); R5 resolves named sort keys (attrgetter constants).")
+    " (R15) the snapshot-removal sites keep what the API says is retained, incl. a snapshot exactly at the expiry cutoff (C15.R1); (R16) a committed snapshot's files are never rolled back after an interrupt (C04.R4); R5 resolves named sort keys (attrgetter constants)."
+    ' R1 accepts a dataclass record whose token field has a default_factory drawing the uuid (a plain default is evaluated once).')
 NOT_DECIDED = ("content equality of re-read snapshots over histories; timestamp lookup under non-monotonic "
                "clocks (depends on run-time values)")
 
